@@ -179,19 +179,29 @@ class Check:
         if write_ledger:
             self.write_ledger()
 
+        show = os.environ.get("HV_SHOW")
+        if show:
+            for o in self.obs:
+                if o.status != DISCHARGED and show in o.name:
+                    print(f"--- {o.name} [{o.status}]\n{o.detail}\n{(o.witness or {}).get('emitted', '') if isinstance(o.witness, dict) else ''}")
         printed = set()
         for o, f in known:
             key = f.get("id", f.get("what"))
             if key not in printed:
                 printed.add(key)
                 print(f"KNOWN-FINDING: property={self.pid} {f.get('what')}")
-        for o, _ in violations:
+        # confirmed counterexamples first; at most MAXV VIOLATION lines (every refuted obligation is in the evidence)
+        MAXV = 8
+        violations.sort(key=lambda of: (not (of[0].replay and of[0].replay.get("confirmed")), of[0].name))
+        for o, _ in violations[:MAXV]:
             path = self.write_replay(o)
             concrete = bool(o.replay and o.replay.get("confirmed"))
             print(f"VIOLATION property={self.pid} replay={path}" + ("" if concrete else " no-failing-input-found"))
             print(f"  obligation: {o.name}")
             if o.detail:
                 print("  " + str(o.detail)[:600].replace("\n", "\n  "))
+        if len(violations) > MAXV:
+            print(f"... and {len(violations) - MAXV} more refuted obligations (names in evidence/{self.pid}.json: refuted)")
         for o in undecided[:20]:
             print(f"UNDECIDED {o.name}: {str(o.detail)[:300]}")
         for n in missing[:20]:
@@ -237,6 +247,7 @@ class Check:
             "known_finding_obligations": sorted(known_names)[:50],
             "known_finding_obligation_count": len(known_names),
             "undecided": [o.name for o in undecided][:50],
+            "refuted": [o.name for o, _ in violations][:200],
             "missing_from_ledger": missing[:50],
             "must_fail_canaries": [{"name": n, "refuted": r} for n, r in self.canaries],
             "solver_time_s": round(self.solver_time, 3),
